@@ -140,6 +140,8 @@ def run(ck, tier):
     _mp.run(ck, F, 'C10')
     from . import accum as _acc2
     _acc2.run2(ck, F, 'C10')
+    from . import relations as _rel
+    _rel.run(ck, F, 'C10')
     from . import accum as _acc
     _acc.run(ck, F, 'C10')
     run_child_opts(ck, F)
